@@ -369,7 +369,7 @@ func (dc *DataContext) SetValue(Vars map[string]reflect.Value, variable string, 
 		} else {
 			//in RuleEntity
 			dc.lockVars.Lock()
-			Vars[variable] = newValue
+			Vars[variable] = detachBasicValue(newValue)
 			dc.lockVars.Unlock()
 			return nil
 		}
@@ -539,6 +539,23 @@ func (dc *DataContext) SetMapVarValue(Vars map[string]reflect.Value, mapVarName,
 	}
 
 	return errors.New(fmt.Sprintf("unspport type, mapVarName =%s", mapVarName))
+}
+
+// a local variable holds the value it was assigned, not a reference into the injected
+// object the value was read from (struct fields and slice elements read through reflect
+// are addressable and would otherwise change under the local)
+func detachBasicValue(v reflect.Value) reflect.Value {
+	if !v.IsValid() || !v.CanAddr() || !v.CanInterface() {
+		return v
+	}
+	switch v.Kind() {
+	case reflect.Bool, reflect.String,
+		reflect.Int, reflect.Int8, reflect.Int16, reflect.Int32, reflect.Int64,
+		reflect.Uint, reflect.Uint8, reflect.Uint16, reflect.Uint32, reflect.Uint64,
+		reflect.Float32, reflect.Float64:
+		return reflect.ValueOf(v.Interface())
+	}
+	return v
 }
 
 func (dc *DataContext) makeArray(value interface{}) {
